@@ -43,6 +43,7 @@ type eqNested struct {
 	In eqStruct
 	L  []string
 }
+
 // structs nested six levels deep, two plain fields on either side of the nested one at every level
 type (
 	eqD1 struct {
